@@ -60,6 +60,58 @@ def gen_case(rng, n_genes=None, n_records=None, cluster=None, config=None, mix=N
     }
 
 
+CORPUS = Path(__file__).resolve().parent.parent / 'corpus'
+_CORPUS = []
+
+
+def corpus_entries():
+    """(reference, GVF list) pairs copied from the repository's own integration tests (tools/harvest_corpus.py)
+    plus the demo reference with the demo GVFs: real exon layouts, multi-isoform genes, published bug reports."""
+    if not _CORPUS:
+        import json
+        real = CORPUS / 'real'
+        for e in json.loads((real / 'manifest.json').read_text()):
+            _CORPUS.append({'name': e['name'], 'ref': real / e['ref'], 'proteome': 'proteome.fasta',
+                            'gvf': [real / g for g in e['gvf']]})
+        demo = CORPUS / 'demo'
+        _CORPUS.append({'name': 'demo', 'ref': demo, 'proteome': 'translate.fasta',
+                        'gvf': sorted((demo / 'gvf').glob('*.gvf'))})
+    return _CORPUS
+
+
+def gen_corpus_case(rng, config=None):
+    """A case over a corpus reference: the records of its GVFs (a PRNG-chosen subset), re-filed by the layout."""
+    entries = corpus_entries()
+    e = entries[-1] if rng.random() < 0.3 else rng.choice(entries[:-1])
+    texts = {'genome_fa': (e['ref'] / 'genome.fasta').read_text(),
+             'gtf': (e['ref'] / 'annotation.gtf').read_text(),
+             'proteome_fa': (e['ref'] / e['proteome']).read_text()}
+    var, cir = [], []
+    for g in e['gvf']:
+        lines = g.read_text().splitlines()
+        is_circ = any(l.startswith('##parser=parseCIRCexplorer') for l in lines)
+        for l in lines:
+            if l and not l.startswith('#'):
+                dst = cir if is_circ else var
+                if l not in dst:
+                    dst.append(l)
+    keep = rng.choice([1.0, 1.0, 0.85, 0.6])
+    if keep < 1.0:
+        var2 = [l for l in var if rng.random() < keep]
+        cir2 = [l for l in cir if rng.random() < keep]
+        if var2 or cir2:
+            var, cir = var2, cir2
+    var.sort(key=workload.line_tx_id)
+    cir.sort(key=workload.line_tx_id)
+    n_tx = sum(1 for l in texts['gtf'].splitlines() if '\ttranscript\t' in l)
+    return {
+        'texts': texts, 'var_lines': var, 'circ_lines': cir,
+        'config': config if config is not None else gen_config(rng),
+        'stats': {'corpus': e['name'], 'n_var': len(var), 'n_circ': len(cir), 'n_tx': n_tx, 'cluster': False,
+                  'n_genes': sum(1 for l in texts['gtf'].splitlines() if '\tgene\t' in l)},
+    }
+
+
 def reference_layout(case):
     lay = {'files': [], 'index_dir': False}
     if case['var_lines']:
@@ -96,7 +148,24 @@ def random_layout(rng, case, allow_index_dir=True):
             if p:
                 files.append({'circ': is_circ, 'lines': p, 'idx': rng.random() < 0.4})
     rng.shuffle(files)
-    return {'files': files, 'index_dir': allow_index_dir and rng.random() < 0.35}
+    index_dir = False
+    if allow_index_dir:
+        u = rng.random()
+        index_dir = True if u < 0.3 else 'foreign+update' if u < 0.38 else 'foreign' if u < 0.44 else False
+    return {'files': files, 'index_dir': index_dir}
+
+
+def foreign_config(config):
+    """Cleavage parameters that differ from ``config`` in exactly one digestion field (chosen by what the
+    parameters are, not by a PRNG, so that it needs no replay state)."""
+    c = dict(config)
+    if c['cleavage_rule'] == 'trypsin':
+        c['cleavage_exception'] = None if c.get('cleavage_exception') else 'trypsin_exception'
+    elif c['miscleavage'] >= 2:
+        c['max_length'] = c['max_length'] + 5
+    else:
+        c['miscleavage'] = c['miscleavage'] + 1
+    return c
 
 
 class Scratch:
@@ -121,7 +190,16 @@ def materialise(case, layout, workdir, tag):
         cvrun.write_reference(case['texts'], refdir)
     ref = {'genome_fa': str(refdir / 'genome.fasta'), 'gtf': str(refdir / 'annotation.gtf'),
            'proteome_fa': str(refdir / 'proteome.fasta')}
-    if layout.get('index_dir'):
+    if layout.get('index_dir') in ('foreign', 'foreign+update'):
+        # a directory generated for ANOTHER cleavage-parameter set; 'foreign+update' then registers the run's own
+        # parameters with the real updateIndex.  Without the update the run must refuse the directory.
+        idir = workdir / ('_index_' + layout['index_dir'].replace('+', '_'))
+        if not (idir / 'metadata.json').exists():
+            cvrun.build_index_dir(ref, idir, foreign_config(case['config']))
+            if layout['index_dir'] == 'foreign+update':
+                cvrun.update_index_dir(idir, case['config'])
+        ref = dict(ref, index_dir=str(idir))
+    elif layout.get('index_dir'):
         idir = workdir / '_index'
         if not (idir / 'metadata.json').exists():
             cvrun.build_index_dir(ref, idir, case['config'])
